@@ -1292,8 +1292,9 @@ class DirectIdxStackTransformation(BaseStackTransformation):
                             # raise RuntimeError(f'Discontiguous access of array {t}')
                             print(f'Discontiguous access of array {t} within {routine}')
 
-                        d_lower = d.lower or s_lower
-                        d_upper = d.upper or s_upper
+                        # explicit bounds may be a (falsy) literal zero
+                        d_lower = d.lower if d.lower is not None else s_lower
+                        d_upper = d.upper if d.upper is not None else s_upper
 
                         # store if this dimension was contiguous
                         contiguous = (d_upper == s_upper) and (d_lower == s_lower)
